@@ -31,6 +31,8 @@ def run_concrete(prop, name, params, inputs, seed=0, dump=False, tier='quick'):
         res['harness_error'] = repr(e)
     except Exception as e:
         res['exception'] = '%s: %s' % (type(e).__name__, e)
+        from .run import _repo_where
+        res['exception_where'] = _repo_where(e)
         res['traceback'] = traceback.format_exc(limit=8)
     for ob in ctx.obligations:
         res['obligations'].append({'label': ob.label, 'status': ob.status, 'detail': ob.detail})
